@@ -26,6 +26,8 @@ REPO_SRC = os.path.dirname(os.path.dirname(os.path.dirname(os.path.abspath(nurbs
 # ------------------------------------------------------------------ conversions
 def to_frac(x):
     """exact value of any number the library may return"""
+    if isinstance(x, np.ndarray) and x.ndim == 0:
+        x = x.item()
     if isinstance(x, F):
         return x
     if isinstance(x, (bool, int)):
@@ -39,6 +41,8 @@ def to_frac(x):
 
 def to_point(x):
     """library point -> Fraction or tuple of Fractions"""
+    if isinstance(x, np.ndarray) and x.ndim == 0:
+        return to_frac(x.item())
     try:
         it = iter(x)
     except TypeError:
@@ -56,7 +60,7 @@ def all_exact(x):
         return True
     if isinstance(x, np.ndarray):
         if x.dtype != object:
-            return np.issubdtype(x.dtype, np.integer)
+            return bool(np.issubdtype(x.dtype, np.integer))
         x = x.tolist()
     try:
         it = iter(x)
